@@ -101,3 +101,61 @@ Proof. exact KV.Proofs.FaninProofs.fanin_seq_node. Qed.
 (* executable test of the hypothesis comb_acyclic_rev *)
 Theorem C17_acyclic_rev_b_sound : forall c, wf_netlist c -> KV.Proofs.FaninProofs.acyclic_rev_b c = true -> comb_acyclic_rev c.
 Proof. exact KV.Proofs.FaninProofs.acyclic_rev_b_sound. Qed.
+
+(** SOURCE TIE of the traversals (round 3): translate/gen_traversals.py, a fail-closed Python-ast translator, regenerates Gen/TraversalsSrc.v
+    from the CURRENT text of Circuit.s_nodes, topological_order, topological_order_with_level, topological_line_order,
+    reversed_topological_order and fanin on every run (a generator = the list of its yields; deque / numpy arrays = lists; every
+    operation that can raise is option-valued; the while loops run on explicit fuel).  The translated functions ARE the hand models all
+    theorems above are stated on -- so nodup, sources first, drivers before readers, completeness, levels, mirror image and the fan-in
+    theorems hold for the code as written.  None = the Python code raised or the fuel ran out: each equation also says that the loop
+    terminates within (number of nodes + 1) evaluations of its test and never raises.  Side conditions, each forced by the source:
+    wf_netlist (what C09 establishes for every Circuit; outside it a line can name a node that does not exist: IndexError);
+    [u32_ok]: topological_order counts the seen input lines of a node in a numpy uint32 array, whose counters wrap at 2^32 (the reversed
+    traversal uses a Python list: no side condition); [i32_ok]: the levels are stored in an int32 array; origins must be nodes of the circuit. *)
+From Coq Require Import ZArith.
+From KV Require Import Model.TraversalsSrcLib Gen.TraversalsSrc.
+From KV Require Proofs.TraversalsSrcProofs.
+Theorem C17_traversals_source_is_model : forall c, wf_netlist c -> forall fuel, length (c_nodes c) < fuel ->
+  s_nodes_src c = Some (s_nodes c) /\
+  (u32_ok c -> topological_order_src c fuel = Some (topo_order c)) /\
+  (u32_ok c -> i32_ok c -> topological_order_with_level_src c fuel = Some (map conv (topo_levels c))) /\
+  (u32_ok c -> topological_line_order_src c fuel = Some (map Some (topo_line_order c))) /\
+  reversed_topological_order_src c fuel = Some (rtopo_order c) /\
+  (forall origins, (forall o, In o origins -> o < length (c_nodes c)) -> fanin_src c fuel origins = Some (fanin c origins)).
+Proof. exact KV.Proofs.TraversalsSrcProofs.traversals_source_is_model. Qed.
+(* s_nodes needs no hypothesis at all; the line order is the line-order model on whatever the translated topological_order yields *)
+Theorem C17_s_nodes_source_is_model : forall c, s_nodes_src c = Some (s_nodes c).
+Proof. exact KV.Proofs.TraversalsSrcProofs.s_nodes_source_is_model. Qed.
+Theorem C17_line_order_source_relative : forall c fuel,
+  topological_line_order_src c fuel
+  = option_map (fun order => map Some (flat_map (fun n => somes (n_outs (get_node c n))) order)) (topological_order_src c fuel).
+Proof. exact KV.Proofs.TraversalsSrcProofs.topological_line_order_source_relative. Qed.
+(* two of the theorems above restated for the code as written *)
+Theorem C17_source_complete : forall c fuel, wf_netlist c -> u32_ok c -> comb_acyclic c -> length (c_nodes c) < fuel ->
+  exists order, topological_order_src c fuel = Some order /\ Permutation order (seq 0 (length (c_nodes c))).
+Proof. exact KV.Proofs.TraversalsSrcProofs.topological_order_source_complete. Qed.
+Theorem C17_source_reverse_is_mirror : forall c fuel, wf_netlist c -> length (c_nodes c) < fuel ->
+  reversed_topological_order_src c fuel = Some (topo_order (rev_netlist c)).
+Proof. exact KV.Proofs.TraversalsSrcProofs.reversed_source_is_mirror. Qed.
+(* what the hypotheses exclude: a line to a node that does not exist (IndexError, the hand model lists a sixth node); one unit of fuel
+   less than (number of nodes + 1); an origin that is not a node of the circuit *)
+Theorem C17_traversals_source_hypotheses_needed :
+  (topological_order_src KV.Proofs.TraversalsSrcProofs.SrcEx.dangling 9 = None /\ topo_order KV.Proofs.TraversalsSrcProofs.SrcEx.dangling = [0; 5]) /\
+  (topological_order_src KV.Proofs.TopoProofs.Ex.ex 6 = None /\ topological_order_src KV.Proofs.TopoProofs.Ex.ex 7 = Some (topo_order KV.Proofs.TopoProofs.Ex.ex)) /\
+  (fanin_src KV.Proofs.TopoProofs.Ex.ex 7 [9] = None /\ fanin KV.Proofs.TopoProofs.Ex.ex [9] = []).
+Proof.
+  exact (conj KV.Proofs.TraversalsSrcProofs.SrcEx.source_needs_wf
+          (conj KV.Proofs.TraversalsSrcProofs.SrcEx.source_needs_fuel KV.Proofs.TraversalsSrcProofs.SrcEx.source_needs_origins)).
+Qed.
+(* non-vacuity: the hypotheses hold on a netlist with a fan-out stem, reconvergence, an unconnected middle pin and a flip-flop, and the
+   translated loops run on it *)
+Example C17_traversals_source_nonvacuous :
+  wf_netlist KV.Proofs.TopoProofs.Ex.ex /\ u32_ok KV.Proofs.TopoProofs.Ex.ex /\ i32_ok KV.Proofs.TopoProofs.Ex.ex /\
+  topological_order_src KV.Proofs.TopoProofs.Ex.ex 7 = Some [2; 3; 4; 5; 0; 1] /\
+  topological_order_with_level_src KV.Proofs.TopoProofs.Ex.ex 7 = Some [(2, 0%Z); (3, 0%Z); (4, 1%Z); (5, 1%Z); (0, 1%Z); (1, 2%Z)] /\
+  topological_line_order_src KV.Proofs.TopoProofs.Ex.ex 7 = Some [Some 0; Some 1; Some 5; Some 2; Some 3; Some 4] /\
+  reversed_topological_order_src KV.Proofs.TopoProofs.Ex.ex 7 = Some [0; 3; 1; 4; 5; 2] /\
+  fanin_src KV.Proofs.TopoProofs.Ex.ex 7 [1] = Some [1; 4; 5; 2] /\
+  fanin_src KV.Proofs.TopoProofs.Ex.ex 7 [1] = Some (fanin KV.Proofs.TopoProofs.Ex.ex [1]) /\
+  s_nodes_src KV.Proofs.TopoProofs.Ex.ex = Some [2; 0; 3].
+Proof. exact KV.Proofs.TraversalsSrcProofs.SrcEx.source_example. Qed.
